@@ -125,4 +125,60 @@ var checks = map[string]Check{
 			return js
 		},
 	},
+	"C03": {
+		Level:       "model_checking",
+		Rule:        "a scripted raw peer sends every frame of the alphabet {type byte x route x body x codec id x metadata} to a real server for every plugin veto stage and with/without unknown-handlers, then a probe call; all non-preemptive schedules (bound 0) for single frames, all interleavings up to the bound for every pair of back-to-back frames (same/different seq, blocking/panicking/erroring handlers); the oracle parses the server's wire output with an independent frame parser",
+		Assumptions: baseAssumptions,
+		Jobs: func(tier string) []Job {
+			var js []Job
+			b := 0
+			if tier == "thorough" {
+				b = 1
+			}
+			for _, v := range []string{"none", "postreadcallheader", "prereadcallbody", "postreadcallbody", "postreadpushheader", "prewritereply"} {
+				for _, u := range []string{"0", "1"} {
+					js = append(js, sched("c03_frames", "veto="+v+",unknown="+u, b, 1+3*b))
+				}
+			}
+			if tier == "thorough" {
+				js = append(js, sched("c03_pair", "", 2, 16))
+			} else {
+				js = append(js, sched("c03_pair", "", 1, 4))
+			}
+			return js
+		},
+	},
+	"C04": {
+		Level:       "model_checking",
+		Rule:        "live sessions: every handler status of the alphabet (13 codes x message x cause strings with separators, escapes, non-ASCII, NUL) and every framework failure cause (unknown route, undecodable argument, panic, closed session, undecodable result, vetoes at each stage) over raw/json/pb/thrift-binary, all non-preemptive schedules; frame level: a REPLY carrying every status of the full alphabet through Pack->Unpack of every shipped protocol including both websocket sub-protocols",
+		Assumptions: baseAssumptions,
+		Jobs: func(tier string) []Job {
+			var js []Job
+			for _, pr := range []string{"raw", "json", "pb", "thrift"} {
+				a := "short"
+				if tier == "thorough" {
+					a = "full"
+				}
+				js = append(js, sched("c04_live", "proto="+pr+",mode=status,alphabet="+a, 0, 1))
+				js = append(js, sched("c04_live", "proto="+pr+",mode=cause", 0, 1))
+			}
+			js = append(js, Job{Mode: "enum", Name: "c04_frames", Shards: 4})
+			return js
+		},
+	},
+	"C05": {
+		Level:       "exploration",
+		Rule:        "bounded-exhaustive enumeration per protocol (raw, json, pb, thrift-binary, websocket json/pb sub-protocols): every value of each field alphabet against a base message (7 seqs, 3 types, 8 methods, 6 statuses, all metadata sequences of <=2 pairs over 10 atoms (quick: 1 pair + reduced 2-pair set), every registered codec id, all 256 single-byte bodies + escape mixes + 64 KiB, 5 pipes, boundary lengths) plus the full product of reduced alphabets; streams: every sequence of <=2 (quick) / 3 frames of a 6-frame alphabet through every uniform chunk size and every single split point, with per-frame size stability; a case is one message or one (sequence, chunking); classes = protocol x field class",
+		Assumptions: []string{"field-by-field reference model written from the documented frame formats; domain limits are data in scen/c05.go (raw: 255/65535 byte limits; pb: service method must be valid UTF-8; ws sub-protocols are message-framed by the websocket layer)", "protocol instances are driven directly through Proto.Pack/Unpack over an in-memory reader"},
+		Jobs: func(tier string) []Job {
+			a, fr := "quick", "2"
+			if tier == "thorough" {
+				a, fr = "full", "3"
+			}
+			return []Job{
+				{Mode: "enum", Name: "c05_roundtrip", Params: "alphabet=" + a, Shards: 16},
+				{Mode: "enum", Name: "c05_stream", Params: "frames=" + fr, Shards: 16},
+			}
+		},
+	},
 }
